@@ -288,7 +288,12 @@ fn gen_value(rng: &mut Rng) -> f64 {
 }
 
 fn gen_prom(rng: &mut Rng, collide: bool) -> Vec<PSeries> {
-    let nseries = 1 + rng.usize(5);
+    // "any number of series and samples": mostly a handful, now and then none at all or a few hundred
+    let nseries = match rng.below(40) {
+        0 => 0,
+        1 => 150 + rng.usize(250),
+        _ => 1 + rng.usize(5),
+    };
     // one request's samples lie within two hours of a base instant (a request spanning decades makes the
     // hour-bucket index of its chunk explode; noted in DESIGN.md, not what C17 is about)
     let base_ms: i64 = *rng.pick(&[0i64, -3_600_000, 1_700_000_000_000, 1_700_000_000_000, 3_999_999_000_000, -1_999_999_000_000]);
@@ -318,7 +323,7 @@ fn gen_prom(rng: &mut Rng, collide: bool) -> Vec<PSeries> {
                 1 => rng.shuffle(&mut labels),
                 _ => {}
             }
-            let ns = rng.usize(4);
+            let ns = if rng.chance(1, 60) { 40 + rng.usize(80) } else { rng.usize(4) };
             let samples = (0..ns).map(|_| (base_ms + rng.range(-3_600_000, 3_600_000), gen_value(rng))).collect();
             PSeries { labels, samples }
         })
